@@ -8,6 +8,12 @@ CLAIMED = {
  'C06': dict(text="Proof: every obligation generated from the current source of Task.calculate_runtime, Task._calc_task_delay and the three segments of Task.do_work (runtime formula, finish - start = max(1, runtime + delay), delay only lengthens, frames) is discharged by an SMT solver for all demands, speeds and delay outputs.",
              note="Assumes: float arithmetic is exact real arithmetic; SimPy resumes a process exactly `delay` after a timeout (S2); DelayModel.generate_delay's contract (result >= runtime) is proved separately under C15's assumptions on numpy.", ref="9/C06"),
 }
+CLAIMED.update({
+ 'C16': dict(text="Proof: the three timestep-multiplier ladders of Config.parse_cluster_config / parse_instrument_config / parse_buffer_config are proved equal to one spec function mult(unit); every scaled quantity (machine speed and bandwidth, system bandwidth, observation start, duration, rate, buffer rate limits) and every unscaled one (capacities, demands, counts) is a discharged loop-body or post obligation; parsing leaves the configuration unchanged (frame); three arithmetic lemmas give unit independence of volumes, rate comparisons and runtimes.",
+             note="Assumes: Config.__init__ (file I/O, JSON parse) is trusted; JSON objects are modelled as heap entities; the 'whole multiples' quantifier makes round() exact; real arithmetic.", ref="9/C16"),
+ 'C18': dict(text="Proof: exact contracts of the four tier-step methods, has_capacity_for and observation_for_transfer, and segment-wise contracts of Buffer.move_hot_to_cold / move_cold_to_hot: per-step conservation, rate = min of the two tiers' rates, residual strictly decreasing, stored in the destination exactly when the residual reaches 0, refused move = state unchanged; ceil(size/rate) step count is an SMT lemma.",
+             note="Assumes: no second move is in progress on the same tiers (transfer slots empty on entry); summing the per-step deltas over the steps of one move (telescoping) is a meta-step; real arithmetic. Two known findings (zero-size observation) are listed in known_findings.json.", ref="9/C18"),
+})
 NA = {'C05': "termination/liveness of the whole event system within a time bound: no contract within reach can decide it (DESIGN.md section 14)"}
 checks, na = [], []
 for p in props:
